@@ -482,13 +482,17 @@ func sprinkle(r *c.Rng, ids []int, noop int) []int {
 // combination with reuse = maps | structs and via = loop | routing.
 func systematicSessions(r *c.Rng, side string, f func(Case)) {
 	ks := sessKinds(side)
-	maps := []map[string]string{{"a": "1", "b": "1"}, {"b": "2", "c": "2"}, {"c": "3", "d": "3"}}
 	n := len(ks)
+	cnt := 0
 	for code := 0; code < n*n*n; code++ {
 		kinds := []string{ks[code%n], ks[code/n%n], ks[code/n/n%n]}
 		for pos := 0; pos < 3; pos++ {
 			for _, reuse := range []string{"maps", "structs"} {
 				for _, via := range []string{"loop", "routing"} {
+					// the names of the three maps: abstract, or the special ones (names.go)
+					nm := sessionNamings[(cnt+r.Intn(2))%len(sessionNamings)]
+					cnt++
+					maps := []map[string]string{{nm[0]: "1", nm[1]: "1"}, {nm[1]: "2", nm[2]: "2"}, {nm[2]: "3", nm[3]: "3"}}
 					k := Case{Side: "sess_" + side, Reuse: reuse, Via: via}
 					for i, kind := range kinds {
 						a := Act{Kind: kind, Headers: copyMap(maps[i])}
@@ -530,6 +534,8 @@ func randSession(r *c.Rng, side string) Case {
 		Via: c.Pick(r, []string{"loop", "routing"})}
 	np := r.Range(2, 5)
 	pEarly := c.Pick(r, []int{0, 0, 1, 3}) // of 12
+	sp := c.Pick(r, []int{spLower, spLower, spCanon, spMixed})
+	fam := someFamily(r, r.Intn(len(specialNames)))
 	for i := 0; i < np; i++ {
 		var a Act
 		switch x := r.Intn(12); {
@@ -544,9 +550,9 @@ func randSession(r *c.Rng, side string) Case {
 		}
 		if a.Kind != kNoop {
 			if r.Chance(1, 2) {
-				a.Headers = smallMap(r.Intn(9))
+				a.Headers = fam.m(r.Intn(9))
 			} else {
-				a.Headers, a.NilHeaders = randMap(r, false)
+				a.Headers, a.NilHeaders = randMap(r, false, sp)
 			}
 			scalars(r, &a)
 		}
@@ -600,6 +606,7 @@ func runSession(o *c.Out, k Case) {
 	}
 	o.Count(fmt.Sprintf("%s:txns=%d", k.Side, len(k.Txns)))
 	o.Count(k.Side + ":reuse=" + k.Reuse + ":via=" + k.Via)
+	countNames(o, k.Side, k.Producers)
 	idx := o.Case(k.Side, coqSession(&k), k, reused && two)
 	o.MonitorChecked(len(k.Txns))
 	for _, h := range monitorSession(o, &k) {
